@@ -46,6 +46,12 @@ class _Unrecognised(Exception):
 
 
 def run(prog, res):
+  from ..rules import dtypes, validate
+  dtypes.selfcheck()
+  _cl = validate.call_closure(prog, [prog.function(q) for q in ('lattice_layer.Lattice.call',)],
+                              follow_init=False)
+  dtypes.check_functions(prog, res, [f for _, f in sorted(_cl.items())])
+  res.floor('D1', 5)
   from ..rules import seqkind
   seqkind.selfcheck()
   for q in ('lattice_lib.evaluate_with_simplex_interpolation', 'lattice_lib.batch_outer_operation'):
